@@ -413,3 +413,25 @@ Proof.
     split; reflexivity.
   - apply negb_false_iff in Hst. destruct (v_blk _ _ L _ Hst) as [_ Hin]. rewrite Hq in Hin. destruct Hin.
 Qed.
+
+(* ---------- lock ownership across steps (justifies the lock-step granularity) ----------
+   The spinlock is held ACROSS model steps only by an arrive_and_wait last arriver between its two
+   steps AW0 and AWN; everywhere else a critical section is one step.  The lock-step harness
+   therefore schedules that section as one entry (hook 917 before the lock) and the driver replays
+   AW0, AWN back to back. *)
+Lemma latch_lock_owner sched count progs : 0 <= count ->
+  let c := latch_run true sched count progs in
+  forall t, lk (fst c) = Some t <-> lpcs (snd c t) = LAwNotify.
+Proof.
+  intros Hc c t. destruct (latch_live_inv sched count progs Hc) as [_ L]. fold c in L.
+  split; [apply (v_own1 _ _ L)|apply (v_own2 _ _ L)].
+Qed.
+
+Lemma latch_aw_section_releases f t g l : lpcs l = LAwNotify ->
+  lk (fst (latch_tstep f ONorm t g l)) = None /\ lpcs (snd (latch_tstep f ONorm t g l)) <> LAwNotify.
+Proof.
+  intros H. unfold latch_tstep. rewrite H.
+  destruct (notify_one g false) as [g' more] eqn:Hn.
+  destruct (notify_one_facts _ _ _ _ Hn) as [_ [_ [_ [Hk _]]]].
+  unfold after_notify. destruct more; cbn [fst snd at_pc done_op llog_add lk lpcs]; split; auto; discriminate.
+Qed.
